@@ -12,6 +12,8 @@ mod w1;
 mod w2;
 mod w3;
 mod w3b;
+mod w4;
+mod c18;
 mod w5;
 mod elem;
 mod vut;
@@ -42,9 +44,12 @@ static ALLOC: w3b::CountingAlloc = w3b::CountingAlloc;
 static C14: w3b::C14Check = w3b::C14Check;
 static C16: w3b::C16Check = w3b::C16Check;
 static C17: w3b::C17Check = w3b::C17Check;
+static C06: w4::C06Check = w4::C06Check;
+static C19: w4::C19Check = w4::C19Check;
+static C18: c18::C18Check = c18::C18Check;
 
 fn checks() -> Vec<&'static dyn Check> {
-    vec![&C01, &C02, &C13, &C05, &C12B, &C03, &C04, &C07, &C08, &C20, &C09, &C10, &C11, &C14, &C16, &C17]
+    vec![&C01, &C02, &C13, &C05, &C12B, &C03, &C04, &C07, &C08, &C20, &C09, &C10, &C11, &C14, &C16, &C17, &C06, &C19, &C18]
 }
 
 fn parse_tier(s: &str) -> Tier {
@@ -83,6 +88,7 @@ fn main() {
             let c = checks.iter().find(|c| c.id() == id).expect("known check");
             framework::worker(*c, tier, widx, n, seed, &res)
         }
+        Some("try-open") => c18::try_open_main(&args[2], args[3].parse().unwrap_or(0)),
         Some("replay") => framework::replay(&checks, &PathBuf::from(&args[2])),
         _ => {
             println!("usage: sim run <id> quick|thorough | sim replay <file>");
